@@ -12,12 +12,14 @@ package server
 
 import (
 	"bytes"
+	"context"
 	"errors"
 	"fmt"
 	"os"
 	"sort"
 	"strings"
 	"sync"
+	"sync/atomic"
 	"testing"
 	"time"
 
@@ -196,6 +198,10 @@ func TestVerifC04Single(t *testing.T) {
 		}
 		c04SingleRun(rep, i, seeds[i], &sealMu, sealPlan)
 	})
+	nb := kit.Scale(2, 12)
+	for i := 0; i < nb && rep.NumViolations() < 5; i++ {
+		c04BelowMinSingle(rep, i, root.Uint64())
+	}
 }
 
 func c04SingleRun(rep *kit.Report, idx int, seed uint64, sealMu *sync.Mutex, sealPlan map[string]map[int]bool) {
@@ -507,6 +513,78 @@ func c04SingleRun(rep *kit.Report, idx int, seed uint64, sealMu *sync.Mutex, sea
 	}
 }
 
+// c04BelowMinSingle: a stream whose replication factor (1) is below its
+// minimum ISR size (2): ALL-policy messages can never be committed, so they
+// must never be acked, however many commit checks later appends trigger;
+// LEADER-policy messages are acked.  Decided by fences (later LEADER acks on
+// the same inbox), not by waiting.
+func c04BelowMinSingle(rep *kit.Report, idx int, seed uint64) {
+	rng := kit.NewRNG(seed)
+	stream := fmt.Sprintf("c04b%d", idx)
+	subject := stream + ".subj"
+	witness := map[string]any{"run": idx, "run_seed": seed, "kind": "rf1-minisr2"}
+	c, srv, err := vfSingle("c04b", func(cfg *Config) { cfg.BatchMaxMessages = []int{1, 16}[rng.Intn(2)] })
+	if err != nil {
+		rep.Inconc("server start: " + err.Error())
+		return
+	}
+	defer c.Cleanup()
+	if err := c.CreateStream(&client.CreateStreamRequest{Subject: subject, Name: stream, ReplicationFactor: 1, MinIsr: &client.NullableInt32{Value: 2}}); err != nil {
+		rep.Inconc("create stream: " + err.Error())
+		return
+	}
+	if _, err := c.PartitionLeader(stream, 0, 20*time.Second); err != nil {
+		rep.Inconc(err.Error())
+		return
+	}
+	part := srv.metadata.GetPartition(stream, 0)
+	pub, err := c04NewPub(c.URL, nil)
+	if err != nil {
+		rep.Inconc("publisher: " + err.Error())
+		return
+	}
+	defer pub.close()
+	var alls, leads []*c04Msg
+	n := rng.Range(20, 50)
+	for j := 0; j < n; j++ {
+		m := &c04Msg{Tag: fmt.Sprintf("b%d-m%03d", idx, j), Expect: -1, Policy: client.AckPolicy_LEADER}
+		if rng.Chance(2, 5) {
+			m.Policy = client.AckPolicy_ALL
+			alls = append(alls, m)
+		} else {
+			leads = append(leads, m)
+		}
+		pub.send(stream, subject, m, c04Value(m.Tag, 30))
+	}
+	// fences: further LEADER messages, each append triggers a commit check
+	for j := 0; j < 5; j++ {
+		m := &c04Msg{Tag: fmt.Sprintf("b%d-fence%d", idx, j), Expect: -1, Policy: client.AckPolicy_LEADER}
+		leads = append(leads, m)
+		pub.send(stream, subject, m, c04Value(m.Tag, 30))
+		pub.nc.Flush()
+		if !pub.waitAcked([]*c04Msg{m}, 30*time.Second) {
+			rep.Inconc(fmt.Sprintf("below-min run %d: LEADER fence not acked", idx))
+			return
+		}
+	}
+	for _, m := range alls {
+		if acks := pub.acks(m); len(acks) > 0 {
+			rep.Violation("C04:all-acked-below-min-isr", fmt.Sprintf("ALL-policy message %s on a stream with replication factor 1 and min ISR 2 was acked (error=%s offset=%d); ISR size %d, HW %d",
+				m.Tag, acks[0].AckError, acks[0].Offset, part.ISRSize(), part.log.HighWatermark()), witness)
+			break
+		}
+	}
+	for _, m := range leads {
+		if acks := pub.acks(m); len(acks) != 1 || acks[0].AckError != client.Ack_OK {
+			rep.Violation("C04:leader-ack-missing-below-min-isr", fmt.Sprintf("LEADER-policy message %s got %d acks", m.Tag, len(acks)), witness)
+			break
+		}
+	}
+	rep.Eval()
+	rep.Count("below_min_all_messages", int64(len(alls)))
+	rep.Nontrivial(fmt.Sprintf("rf1-minisr2|%d|%d", n, len(alls)))
+}
+
 // ---------------------------------------------------------------- cluster
 
 func TestVerifC04Cluster(t *testing.T) {
@@ -597,7 +675,9 @@ func c04ClusterRun(rep *kit.Report, idx int, seed uint64, minISR int) {
 		inconc(err.Error())
 		return
 	}
-	lp := ln.Partition(stream, 0)
+	var lpp, heldPP atomic.Pointer[partition]
+	lpp.Store(ln.Partition(stream, 0))
+	lp := lpp.Load()
 	var fol []string
 	for _, id := range c.IDs {
 		if id != ln.ID {
@@ -605,7 +685,7 @@ func c04ClusterRun(rep *kit.Report, idx int, seed uint64, minISR int) {
 		}
 	}
 	held := fol[rng.Intn(2)]
-	heldPart := c.Nodes[held].Partition(stream, 0)
+	heldPP.Store(c.Nodes[held].Partition(stream, 0))
 	var phase string
 	var pmu sync.Mutex
 	setPhase := func(s string) { pmu.Lock(); phase = s; pmu.Unlock(); logf("PHASE %s", s) }
@@ -627,6 +707,7 @@ func c04ClusterRun(rep *kit.Report, idx int, seed uint64, minISR int) {
 		// Decisive, non-racy observation: while the follower is held it cannot
 		// append, and it cannot re-enter the ISR; so "held && still in ISR now &&
 		// its log ends below the acked offset" implies the same at ack-send time.
+		lp := lpp.Load()
 		if heldNow() {
 			inISR := false
 			for _, r := range lp.GetISR() {
@@ -634,11 +715,11 @@ func c04ClusterRun(rep *kit.Report, idx int, seed uint64, minISR int) {
 					inISR = true
 				}
 			}
-			hn := heldPart.log.NewestOffset()
+			hn := heldPP.Load().log.NewestOffset()
 			if inISR && hn < a.Offset {
 				fail("C04:all-acked-before-isr-stored", fmt.Sprintf("ALL-policy ack for %s at offset %d received while in-sync replica %s (held, still in the ISR %v) has only stored up to %d", m.Tag, a.Offset, held, lp.GetISR(), hn))
 			}
-			if strings.HasPrefix(m.Tag, "below-") && minISR == 3 {
+			if strings.HasPrefix(m.Tag, "below") && minISR == 3 {
 				fail("C04:all-acked-below-min-isr", fmt.Sprintf("ALL-policy ack for %s received although the ISR has %d members (%v) throughout the message's life and min ISR is %d", m.Tag, lp.ISRSize(), lp.GetISR(), minISR))
 			}
 		}
@@ -708,6 +789,49 @@ func c04ClusterRun(rep *kit.Report, idx int, seed uint64, minISR int) {
 			return
 		}
 		decisive = true
+		if minISR == 2 {
+			// Second held follower: the ISR drops to the leader alone, below the
+			// minimum, so ALL messages stay pending.  Then the first held
+			// follower is put back into the ISR through the metadata API (an
+			// ExpandISR request with the current leader and epoch) although it
+			// is still parked and behind: it counts as not having reported any
+			// offset yet, so nothing may be acked until it really has stored
+			// the messages.
+			other := fol[0]
+			if other == held {
+				other = fol[1]
+			}
+			gmu.Lock()
+			gates[other] = make(chan struct{})
+			gmu.Unlock()
+			if vfWait(20*time.Second, func() bool { gmu.Lock(); defer gmu.Unlock(); return parked[other] }) &&
+				vfWait(30*time.Second, func() bool { return lp.ISRSize() == 1 }) {
+				setPhase("leader-alone-below-min")
+				pend := publish("pend-", rng.Range(2, 4), client.AckPolicy_ALL)
+				kick := publish("pendL-", 1, client.AckPolicy_LEADER)
+				if pub.waitAcked(kick, 20*time.Second) {
+					leader, epoch := lp.GetLeader()
+					ctx, cancel := context.WithTimeout(context.Background(), 15*time.Second)
+					st := ln.Server().metadata.ExpandISR(ctx, &proto.ExpandISROp{Stream: stream, Partition: 0, ReplicaToAdd: held, Leader: leader, LeaderEpoch: epoch})
+					cancel()
+					if st == nil && vfWait(20*time.Second, func() bool { return lp.ISRSize() == 2 }) {
+						setPhase("expanded-while-parked")
+						kick2 := publish("pendL2-", 2, client.AckPolicy_LEADER) // each append triggers a commit check
+						if pub.waitAcked(kick2, 20*time.Second) {
+							vfWait(1500*time.Millisecond, func() bool { return rep.NumViolations() > 0 })
+							rep.Count("cluster_forced_expand_phases", 1)
+						}
+						_ = pend
+					}
+				}
+			}
+			gmu.Lock()
+			if g := gates[other]; g != nil {
+				close(g)
+				delete(gates, other)
+			}
+			gmu.Unlock()
+		}
 	} else {
 		// minISR == 3: nothing may be acked with ALL while the ISR has 2 members
 		below := publish("below-", rng.Range(2, 5), client.AckPolicy_ALL)
@@ -727,6 +851,50 @@ func c04ClusterRun(rep *kit.Report, idx int, seed uint64, minISR int) {
 			}
 		}
 		decisive = true
+		// The partition objects are rebuilt (pause + resume) while the ISR is
+		// still below the minimum: the rule must survive that.
+		if ml, err := c.MetaLeader(20 * time.Second); err == nil {
+			ctx, cancel := context.WithTimeout(context.Background(), 20*time.Second)
+			_, perr := ml.api.PauseStream(ctx, &client.PauseStreamRequest{Name: stream})
+			cancel()
+			if perr == nil {
+				setPhase("paused")
+				ctx, cancel = context.WithTimeout(context.Background(), 20*time.Second)
+				_, rerr := ml.api.Publish(ctx, &client.PublishRequest{Stream: stream, Value: c04Value("resume-kick", 20), AckPolicy: client.AckPolicy_LEADER})
+				cancel()
+				resumed := rerr == nil && vfWait(30*time.Second, func() bool {
+					n2, err := c.PartitionLeader(stream, 0, 10*time.Millisecond)
+					if err != nil || n2.ID != ln.ID {
+						return false
+					}
+					hp := c.Nodes[held].Partition(stream, 0)
+					return hp != nil && !hp.IsPaused() && hp != heldPP.Load()
+				})
+				if resumed {
+					lpp.Store(ln.Partition(stream, 0))
+					heldPP.Store(c.Nodes[held].Partition(stream, 0))
+					lp = lpp.Load()
+					setPhase("resumed-below-min")
+					below2 := publish("below2-", rng.Range(2, 4), client.AckPolicy_ALL)
+					lead2 := publish("below2L-", 2, client.AckPolicy_LEADER)
+					if pub.waitAcked(lead2, 20*time.Second) {
+						vfWait(2*time.Second, func() bool { return rep.NumViolations() > 0 })
+						for _, m := range below2 {
+							if len(pub.acks(m)) > 0 && rep.NumViolations() == 0 {
+								fail("C04:all-acked-below-min-isr", fmt.Sprintf("ALL-policy message %s was acked after pause+resume while the ISR had 2 members and min ISR is 3", m.Tag))
+							}
+						}
+						rep.Count("cluster_pause_resume_below_min_phases", 1)
+					}
+					// acks pending in the old partition objects' commit queues are
+					// gone with those objects: only the new ones can still arrive
+					below = below2
+					inISRmsgs = nil
+				} else {
+					inconc("stream did not resume on the same leader after pause")
+				}
+			}
+		}
 		// release: ISR expands to 3, then everything pending must be acked
 		setPhase("released")
 		gmu.Lock()
